@@ -190,7 +190,8 @@ PROPS = {
         "test": "TestC09", "variant": "msm",
         "quick": {"shards": 16, "timeout": 2400,
                   "matrix": [{"cpus": c} for c in (16, 16, 1, 3, 16, 2, 5, 16, 1, 7, 16, 4, 16, 3, 16, 1)]},
-        "thorough": {"shards": 32, "timeout": 14400, "matrix": [{"cpus": c} for c in range(16, 0, -1)]},
+        "thorough": {"shards": 32, "timeout": 14400, "matrix": [{"cpus": c} for c in range(16, 0, -1)],
+                     "fuzz": [{"target": "FuzzC09Digits", "seconds": 90}]},
         "rule": "public path (banderwagon.Element.MultiExp, bandersnatch.MultiExp, ipa.MultiScalar): n in {0..8, every window "
                 "threshold 49,129,321,769,1793,4097,9217,20481 -2..+1, 1..300, 1..5000; thorough adds 45057, 98305, 212993, "
                 "458753}; NbTasks in {0,1,2,3,5,16,32,52,63,64,65,128,129,256,1024, uniform 0..1100}; both ScalarsMont values; "
@@ -260,7 +261,7 @@ PROPS = {
     "C17": {
         "test": "TestC17", "variant": "elem",
         "quick": {"shards": 16, "timeout": 1200},
-        "thorough": {"shards": 16, "timeout": 7200},
+        "thorough": {"shards": 16, "timeout": 7200, "fuzz": [{"target": "FuzzC17Sqrt", "seconds": 90}]},
         "rule": "v = g^e * u with g the published primitive 2^32-th root of unity and u of odd order, e chosen so that the "
                 "2-adic component of v has a structured discrete log: for every block position 0..3 and every byte value 0..255 "
                 "with the other blocks 0 / 0xFF / seed-dependent (enumerated completely in both tiers, for SqrtPrecomp and for "
@@ -276,7 +277,8 @@ PROPS = {
     "C15": {
         "test": "TestC15", "variant": "fr",
         "quick": {"shards": 16, "timeout": 1800, "matrix": [{"variant": "fr"}, {"variant": "fr_noadx"}]},
-        "thorough": {"shards": 32, "timeout": 14400, "matrix": [{"variant": "fr"}, {"variant": "fr_noadx"}]},
+        "thorough": {"shards": 32, "timeout": 14400, "matrix": [{"variant": "fr"}, {"variant": "fr_noadx"}],
+                     "fuzz": [{"target": "FuzzC15Ops", "seconds": 90}]},
         "rule": "boundary set: all 4-limb combinations of per-limb values {0,1,2^63,2^64-1,q_i-1,q_i,q_i+1} below r plus values "
                 "within +-2 of 0, r/2, r, R mod r, R^2 mod r, R^-1 mod r (raw limb patterns; the count is in "
                 "coverage.boundary_elements). FULL cross product of ordered pairs for Add, Sub, Mul, their portable generic "
